@@ -79,6 +79,29 @@ func vc20_prog(kind, n int) (string, int) {
 		}
 		add("\tprint(s)\n}\n")
 		return string(b), n * (n - 1) / 2
+	case 6: // one call of a variadic function with n arguments
+		add("func sum(xs ...int) int {\n\ts := 0\n\tfor _, x := range xs {\n\t\ts += x\n\t}\n\treturn s + len(xs)\n}\n")
+		add("func main() {\n\tprint(sum(")
+		for i := 0; i < n; i++ {
+			if i > 0 {
+				add(", ")
+			}
+			add(vitoa(i))
+		}
+		add("))\n}\n")
+		return string(b), n*(n-1)/2 + n
+	case 7: // n live locals, then appends of one, two and three of them: the
+		// temporaries of the append are the function's highest registers
+		add("func main() {\n\ts := []int{}\n\tt := 0\n")
+		for i := 0; i < n; i++ {
+			add("\ta" + vitoa(i) + " := " + vitoa(i) + "\n")
+		}
+		add("\ts = append(s, a1)\n\ts = append(s, a2, a3)\n\ts = append(s, a4, a5, a6)\n")
+		for i := 0; i < n; i++ {
+			add("\t{ t += a" + vitoa(i) + " }\n")
+		}
+		add("\t{ t += s[0] }\n\t{ t += s[2] }\n\t{ t += s[5] }\n\t{ t += len(s) }\n\tprint(t)\n}\n")
+		return string(b), n*(n-1)/2 + 1 + 3 + 6 + 6
 	}
 	return "", 0
 }
@@ -117,3 +140,13 @@ func vh_c20_e2e_strings_q() { vc20_e2e(2, []int{254, 255, 256, 257, 258}) }
 func vh_c20_e2e_funcs_q()   { vc20_e2e(3, []int{254, 255, 256, 257, 258}) }
 func vh_c20_e2e_types_q()   { vc20_e2e(4, []int{250, 253, 254, 255, 256, 257, 258}) }
 func vh_c20_e2e_fields_q()  { vc20_e2e(5, []int{254, 255, 256, 257, 258}) }
+func vh_c20_e2e_variadic_q() {
+	vc20_e2e(6, []int{1, 60, 61, 62, 63, 64, 65, 100, 126, 127, 128, 129, 200, 255, 256, 257})
+}
+func vh_c20_e2e_append_q() {
+	var sizes []int
+	for n := 100; n <= 127; n++ {
+		sizes = append(sizes, n)
+	}
+	vc20_e2e(7, sizes)
+}
